@@ -46,7 +46,7 @@ DELIVERABLES, for k = {k1}, {k2}, in directory /tmp/seeded-{pid}-k/ :
   patch.diff  — `git diff` of the change against the worktree's HEAD (must apply cleanly with `git apply`)
   demo.rs     — the demonstration test file (plus a first-line comment with the exact cargo command/features needed to run it)
   meta.json   — {{"property": "{pid}", "summary": "...what was changed...", "needs_to_manifest": "...what specific input/schedule/sequence is needed...", "commands_run": ["..."], "existing_tests_pass": true, "demo_fails_with_change": true, "demo_passes_without_change": true}}
-At the end leave the worktree clean (`git -C {wt} checkout -- . && git -C {wt} clean -fdq -e target`). Your final message: a short description of both changes and the verification you performed. Keep every single message you write short (never paste long generated content into a message; work in small steps). Do not weaken your changes to be "detectable"; make them as realistic and as hard to notice as you can while still clearly violating the property statement.
+Never use `git stash` (the stash is shared by all worktrees of the repository and other people work in sibling worktrees): to toggle a change save it with `git diff > file` and use `git apply file` / `git apply -R file`. At the end leave the worktree clean (`git -C {wt} checkout -- . && git -C {wt} clean -fdq -e target`). Your final message: a short description of both changes and the verification you performed. Keep every single message you write short (never paste long generated content into a message; work in small steps). Do not weaken your changes to be "detectable"; make them as realistic and as hard to notice as you can while still clearly violating the property statement.
 
 ALREADY TRIED by others for this property (do NOT repeat these or close variants):
 {chr(10).join(tried)}
